@@ -226,6 +226,20 @@ func (m *Manager) authenticateHTTP(req *Request, token string) (string, error) {
 	httpClient := &http.Client{
 		Timeout:   m.ReadTimeout,
 		Transport: tr,
+		// follow only redirects that repeat the POST request with its body (307, 308).
+		// Other redirects (301, 302, 303) are converted by net/http into a GET request
+		// without body, whose response must not be mistaken for an authentication result.
+		CheckRedirect: func(req *http.Request, via []*http.Request) error {
+			if req.Response == nil ||
+				(req.Response.StatusCode != http.StatusTemporaryRedirect &&
+					req.Response.StatusCode != http.StatusPermanentRedirect) {
+				return http.ErrUseLastResponse
+			}
+			if len(via) >= 10 {
+				return fmt.Errorf("stopped after 10 redirects")
+			}
+			return nil
+		},
 	}
 
 	res, err := httpClient.Post(m.HTTPAddress, "application/json", bytes.NewReader(enc))
